@@ -82,6 +82,13 @@ def errFree (e : ErrO) : ResM Unit := do
 /-! ## strings -/
 def strdup : ResM (Option Blk) := malloc
 
+/-- `p_realloc` of a block of the caller: when the allocator refuses, NULL is returned and the old block stays valid;
+    otherwise the old block has become the new one -/
+def strRealloc (b : Blk) : ResM (Char × Blk) := do
+  let some n ← malloc | return ('F', b)
+  freeB b
+  return ('S', n)
+
 /-- `p_strtod`: the chomped copy is the only allocation; `0.0` when it fails -/
 def strtod : ResM Char := do
   let some t ← malloc | return 'F'
@@ -634,7 +641,13 @@ def sockAccept (s : SockO) (e : EP) : ResM (Char × SockO × Option SockO × EP)
     let e' ← setErr e
     closeFd fd
     return ('F', s', none, e')
-  -- `p_socket_new_from_fd` on the accepted descriptor: `fcntl (F_SETFL)` fails → the structure is released, `p_socket_accept` closes the descriptor
+  -- `p_socket_new_from_fd` on the accepted descriptor: `pp_socket_set_details_from_fd` (its first `getsockopt`) or
+  -- `fcntl (F_SETFL)` fails → the structure is released, `p_socket_accept` closes the descriptor
+  if !(← sysOk "getsockopt") then
+    let e' ← setErr e
+    freeB a
+    closeFd fd
+    return ('F', s', none, e')
   if !(← sysOk "fcntl") then
     let e' ← setErr e
     freeB a
@@ -685,6 +698,12 @@ def sockFromFd (e : EP) : ResM (Option SockO × EP) := do
   let fd ← openFd
   let some a ← malloc | do
     let e' ← setErr e
+    closeFd fd
+    return (none, e')
+  -- `pp_socket_set_details_from_fd`: the type of the descriptor cannot be read (`getsockopt (SO_TYPE)` fails)
+  if !(← sysOk "getsockopt") then
+    let e' ← setErr e
+    freeB a
     closeFd fd
     return (none, e')
   if !(← sysOk "fcntl") then
@@ -778,11 +797,13 @@ def shmOpen (id size : Nat) (e : EP) : ResM (Option (Nat × Bool × Nat) × EP) 
   let segSize := match ex with | some sz => sz | none => size
   if created then nameCreate (.shm id) size
   let fd ← openFd
-  let ftruncOk ← if created then sysOk "ftruncate" else pure true
-  if !ftruncOk then
+  -- a new object is sized with `ftruncate`, the size of an existing one is read with `fstat`; when either fails the
+  -- descriptor is closed and `pp_shm_clean_handle` removes the name only if this handle created it
+  let sizeOk ← if created then sysOk "ftruncate" else sysOk "fstat"
+  if !sizeOk then
     let e' ← setErr e
     closeFd fd
-    nameUnlink (.shm id)
+    if created then nameUnlink (.shm id)
     return (none, e')
   return (some (fd, created, segSize), e)
 
@@ -1070,16 +1091,38 @@ def threadBody (tls : Option TlsO) (body : Bool) : ResM (Option TlsO) :=
     pure (some { t with slot := k2 })
   | t, _ => pure t
 
+/-- what the harness asks of a thread: `body` — store a value under the user key; `long` — a name of more than 15
+    characters (`p_uthread_set_name_internal` then works on a truncated copy) -/
+structure ThrOpt where
+  body : Bool
+  long : Bool := false
+  deriving Repr
+
+/-- `p_uthread_create_internal` after the structure exists: attribute object, detach state, `pthread_create`; each
+    can fail, the structure is then released by the caller of this helper -/
+def threadStart : ResM Bool := do
+  if !(← sysOk "pthread_attr_init") then return false
+  if !(← sysOk "pthread_attr_setdetachstate") then return false
+  sysOk "pthread_create"
+
+/-- `p_uthread_set_name_internal` in the new thread (only when the name was copied): a long name is truncated in a
+    temporary copy, which is released again; without the copy the system name is not set -/
+def threadSetName (long : Bool) (nm : Option Blk) : ResM Unit := do
+  if long && nm.isSome then
+    let some t ← malloc | return ()
+    freeB t
+
 /-- `p_uthread_create` followed by the complete run of the thread (it is joined or waited for):
     the creator allocates the structure and the name, then the thread runs its proxy and its body. -/
-def threadRun (l : LibO) (tls : Option TlsO) (body : Bool) : ResM (Option ThreadO × LibO × Option TlsO) := do
+def threadRun (l : LibO) (tls : Option TlsO) (o : ThrOpt) : ResM (Option ThreadO × LibO × Option TlsO) := do
   let some a ← malloc | return (none, l, tls)
-  if !(← sysOk "pthread_create") then
+  if !(← threadStart) then
     freeB a
     return (none, l, tls)
   let nm ← malloc
   let lt ← threadProxy l.tls
-  let tls' ← threadBody tls body
+  threadSetName o.long nm
+  let tls' ← threadBody tls o.body
   return (some ⟨a, nm⟩, { l with tls := lt }, tls')
 
 def threadUnref (t : ThreadO) : ResM Unit := do
@@ -1132,5 +1175,13 @@ def mmapNew (len : Nat) (e : EP) : ResM (Option (Nat × Nat) × EP) := do
     return (none, e')
   let m ← mmap len
   return (some (m, len), e)
+
+/-- `p_mem_munmap`: when `munmap` fails the error is reported and the mapping stays (the caller still owns it) -/
+def mmapUnmap (i len : Nat) (e : EP) : ResM (Bool × EP) := do
+  if !(← sysOk "munmap") then
+    let e' ← setErr e
+    return (false, e')
+  munmap i len len
+  return (true, e)
 
 end PV.Res
